@@ -385,6 +385,29 @@ Theorem C10_detach_preserves_FlagInv :
     FlagInv g -> FlagInv (detach_step g k).
 Proof. exact detach_step_sound_repo. Qed.
 
+(* The sources query of Step.detach is TRANSLATED (GenSched.cas_where: the conjuncts that select the source
+   nodes two hops upstream of the detached subtree), not pinned: Step.detach keeps FlagInv for ANY list of
+   conjuncts that hold of every attached producer step (kind = 'step', NOT detached) ... *)
+Theorem C10_detach_preserves_FlagInv_any_sources_query :
+  forall w g k, forallb cas_atom_total w = true -> WF g ->
+    (forall f, In f (g_files g) -> f_key f <> k) ->
+    (forall d f, In d (g_deps g) -> find_file g (d_snk d) = Some f ->
+       mem_N (f_key f) (k :: below g k) = true -> mem_N (d_src d) (k :: below g k) = true) ->
+    FlagInv g -> FlagInv (detach_step_with w g k).
+Proof. exact detach_step_with_sound. Qed.
+
+(* ... and NOT for a query that leaves a producer alone while another attached node still consumes the file
+   ("that file keeps its source step needed"): from a snapshot with every cached attribute correct, detaching
+   the DEFAULT consumer of an OPTIONAL producer's output that an unneeded OPTIONAL step also reads leaves the
+   producer's _implied_need stale and unflagged; after the metadata updates the producer is in the dispatch set
+   although it is not eligible by definition (nothing needs it). *)
+Theorem C10_detach_refuted_for_sources_query_skipping_shared_inputs :
+  exists g k, WF g /\ Acyclic g /\ AllCorrect g /\ HasHashInv g /\ prim_ok_b g (PDetach k) = true /\
+    ~ FlagInv_need (detach_step_with cas_skip_shared g k) /\
+    exists g', update_meta (detach_step_with cas_skip_shared g k) = Some g' /\
+      ~ AllCorrect g' /\ exists s, In s (dispatch_set g') /\ eligible_spec g' s = false.
+Proof. exact detach_skip_shared_refuted. Qed.
+
 (* Step.reattach under creator c (whose detached flag cdet is inherited by the subtree) keeps FlagInv.
    Same side condition on outputs; when the new creator is itself detached the subtree must already
    be detached (products of a detached node are detached). *)
